@@ -162,3 +162,38 @@ Theorem C01_rep_elem_nonproductive_refuted :
     run g c orc false fuel input = SyntaxErr 1.
 Proof. exists g_repsup, c_default, (fun _ _ => None), 50, [97;97;98]%N. exact refuted_repsup. Qed.
 Print Assumptions C01_rep_elem_nonproductive_refuted.
+
+From TxV Require Proofs.PegTerm Proofs.SpecTotal.
+
+(* C01_refinement_total: the refinement theorem without the "if the interpreter terminates" proviso.  For
+   every table in the class wfg that passes the termination analysis of Proofs/PegTerm.v (no left
+   recursion, no repetition over an element that is truthy without consuming; both conditions decidable
+   and evaluated per case), every config, every input, every oracle whose matches are non-empty and stay
+   inside the input, and EVERY fuel from the computable bound fuel_bound on: the interpreter returns a
+   verdict (it neither runs out of fuel nor crashes), it accepts exactly when the documented semantics
+   accept, and the tree clauses of C01_refinement_partial hold (hence, by C01_model_equality, the models). *)
+Theorem C01_refinement_total :
+  forall g pf c orc input f,
+    wfg g pf = true -> PegTerm.terminating PegTerm.none_nullable g = true ->
+    PegTerm.orc_sane g input orc -> orc_pos orc ->
+    PegTerm.fuel_bound PegTerm.none_nullable g input <= f ->
+    (exists r ts p, run g c orc false f input = Parsed r /\ spec_run g c orc f input = SOk ts p /\
+                    (nosep g = true -> erase_all ts = flatten r) /\
+                    exists tsq, spec_run_q g c orc f input = SOk tsq p /\ erase_all tsq = flatten r) \/
+    (exists e, run g c orc false f input = SyntaxErr e /\ spec_run g c orc f input = SFail).
+Proof. exact SpecTotal.refinement_total. Qed.
+Print Assumptions C01_refinement_total.
+
+(* tables in the class never crash the interpreter *)
+Theorem C01_no_crash :
+  forall g pf c orc fuel input w, wfg g pf = true -> run g c orc false fuel input = Aborted w -> w = 0.
+Proof. exact SpecTotal.wfg_no_crash. Qed.
+Print Assumptions C01_no_crash.
+
+Example C01_refinement_total_nonvacuous :
+  wfg g_rich 24 = true /\ PegTerm.terminating PegTerm.none_nullable g_rich = true /\
+  PegTerm.orc_sane g_rich in_rich (orc_of t_rich) /\ orc_pos (orc_of t_rich) /\
+  PegTerm.fuel_bound PegTerm.none_nullable g_rich in_rich = 106 /\
+  accepts (run g_rich c_default (orc_of t_rich) false 106 in_rich) = true.
+Proof. exact SpecTotal.rich_total_nonvacuous. Qed.
+Print Assumptions C01_refinement_total_nonvacuous.
